@@ -17,6 +17,7 @@ import (
 // capacity of the destination).
 func T3EncBufferBounds(p *AsmProg, kind string) func(x *Exec) {
 	return func(x *Exec) {
+		kind := kind // re-parsed on every path: the kind is rewritten below
 		s := x.st
 		// "omitempty:<bits>[f]": a struct with one omitempty scalar field of that width
 		omitW, omitFloat := 0, false
@@ -39,8 +40,16 @@ func T3EncBufferBounds(p *AsmProg, kind string) func(x *Exec) {
 		// true and <f> bytes when it is false (which decides whether, and under which name
 		// length, the field's tag made it a member)
 		outT, outF := -1, -1
+		outTextT, outTextF := "", ""
 		if strings.HasPrefix(kind, "outlen:") {
-			fmt.Sscanf(strings.TrimPrefix(kind, "outlen:"), "%d,%d", &outT, &outF)
+			spec := strings.TrimPrefix(kind, "outlen:")
+			if i := strings.IndexByte(spec, ';'); i >= 0 {
+				// the expected texts themselves: "<true text>|<false text>"
+				tf := strings.SplitN(spec[i+1:], "|", 2)
+				outTextT, outTextF = tf[0], tf[1]
+				spec = spec[:i]
+			}
+			fmt.Sscanf(spec, "%d,%d", &outT, &outF)
 			kind = "scalar"
 		}
 		var scalarIn *smt.Term
@@ -56,6 +65,12 @@ func T3EncBufferBounds(p *AsmProg, kind string) func(x *Exec) {
 		// output buffer: cap0 <= 12, len0 <= cap0
 		cap0 := x.newInput("cap", 64)
 		len0 := x.newInput("len", 64)
+		if outTextT != "" {
+			// the text itself is compared: start from an empty buffer, so that every store of the
+			// generated code lands at a concrete offset
+			x.assume(s.Eq(len0, x.c64(0)))
+			len0 = x.c64(0)
+		}
 		x.assume(s.Ule(cap0, x.c64(12)))
 		x.assume(s.Ule(len0, cap0))
 		x.setRange(cap0, 0, 12)
@@ -337,8 +352,16 @@ func T3EncBufferBounds(p *AsmProg, kind string) func(x *Exec) {
 					x.assume(s.Uge(ncap, want))
 					x.assume(s.Ule(ncap, x.c64(capMax)))
 					nb := x.newBytes(capMax, "grown")
-					nb.LSize = ncap
 					nb.Junk = func(off int) *smt.Term { return x.junk(8) }
+					if outTextT != "" {
+						// the text is compared at the end: the grown buffer starts with the old content
+						// (only the first 16 bytes are ever compared)
+						oldL := cur.LSize
+						cur.LSize = nil
+						x.copyBytes(Ptr{Obj: nb, Off: x.c64(0)}, Ptr{Obj: cur, Off: x.c64(0)}, oldLen, 16)
+						cur.LSize = oldL
+					}
+					nb.LSize = ncap
 					cur = nb
 					clobber(as, "DX", "SI", "DI", "R8", "R9", "R10", "R11")
 					as.R["AX"] = Ptr{Obj: nb, Off: x.c64(0)}
@@ -387,6 +410,23 @@ func T3EncBufferBounds(p *AsmProg, kind string) func(x *Exec) {
 				n := s.Sub(l, len0)
 				x.check(s.Implies(s.Eq(bit, s.Const(8, 1)), s.Eq(n, x.c64(int64(outT)))), "assert", "the text written for a one-field struct (field true) does not have the length its tag calls for")
 				x.check(s.Implies(s.Eq(bit, s.Const(8, 0)), s.Eq(n, x.c64(int64(outF)))), "assert", "the text written for a one-field struct (field false) does not have the length its tag calls for")
+				if outTextT != "" {
+					// with an empty buffer to start from, the text itself is what the tag calls for
+					oldL := cur.LSize
+					cur.LSize = nil
+					for _, c := range []struct {
+						b    int64
+						text string
+					}{{1, outTextT}, {0, outTextF}} {
+						eq := s.True
+						for i := 0; i < len(c.text); i++ {
+							eq = s.BAnd(eq, s.Eq(x.byteIdx(Ptr{Obj: cur, Off: x.c64(0)}, i), s.Const(8, uint64(c.text[i]))))
+						}
+						x.check(s.Implies(s.BAnd(s.Eq(len0, x.c64(0)), s.BAnd(s.Eq(bit, s.Const(8, uint64(c.b))), s.Eq(n, x.c64(int64(len(c.text)))))), eq), "assert", "the text written for a one-field struct is not the member its json tag calls for (name or value differ)")
+					}
+					cur.LSize = oldL
+					x.covers["outtext"] = true
+				}
 				x.covers["outlen"] = true
 			}
 			if kind == "slice_marshaler" {
